@@ -19,7 +19,7 @@ use crate::world::*;
 
 pub const MAGIC: [u8; 4] = [0xd1, 0xd9, 0x3a, 0xaf];
 pub const GZ: [u8; 10] = [31, 139, 8, 0, 0, 0, 0, 0, 0, 255];
-pub const KINDS: &[&str] = &["torn_write", "bit_rot", "stale_tail", "lost_write", "marker_substitution", "string_substitution", "json_mutation", "value_substitution", "zeroed_range", "duplicated_range", "multi_byte", "freeform"];
+pub const KINDS: &[&str] = &["torn_write", "bit_rot", "stale_tail", "lost_write", "marker_substitution", "string_substitution", "json_mutation", "value_substitution", "typed_hostile", "zeroed_range", "duplicated_range", "multi_byte", "freeform"];
 pub const EXHAUSTIVE_KINDS: &[&str] = &["torn_write", "bit_rot", "stale_tail", "lost_write", "marker_substitution", "string_substitution", "json_mutation", "value_substitution"];
 /// Whole-value replacements (the value, with everything nested in it, is cut out and one of these
 /// single-byte msgpack values is put in its place): nil, false, 0, empty array, empty map, empty string.
@@ -396,6 +396,7 @@ impl FaultSpace {
             "json_mutation" => self.json_cases.len() as u64,
             "value_substitution" => (self.extents.len() * VALUE_SUBST.len()) as u64,
             "zeroed_range" | "duplicated_range" | "multi_byte" => self.n_sampled,
+            "typed_hostile" => self.n_sampled * 3,
             "freeform" => 24 + self.n_sampled / 4,
             _ => 0,
         }
@@ -435,6 +436,7 @@ impl FaultSpace {
                 v.extend_from_slice(&a[en..]);
                 v
             }
+            "typed_hostile" => crate::c10gen::typed_hostile(self.seed, idx),
             "json_mutation" => {
                 let (si, t) = &self.json_cases[i];
                 splice_string(a, self.strings[*si], t.as_bytes())
@@ -579,6 +581,23 @@ fn full_answers(e: &Engine, w: &World, reqs: &Reqs, light: bool) -> u64 {
             }
         }
     }
+    if !light {
+        // every host with exactly one letter upper-cased (a stored hostname that lost its lower-case
+        // normalisation to a flipped bit is only reached by a URL spelled the same way)
+        for h in HOSTS.iter() {
+            for (ci, c) in h.char_indices() {
+                if c.is_ascii_lowercase() {
+                    let mut v = h.to_string();
+                    v.replace_range(ci..ci + 1, &c.to_ascii_uppercase().to_string());
+                    for path in ["/ad1.js", "/ads/x/banner"] {
+                        if let Ok(rq) = adblock::request::Request::new(&format!("https://{}{}", v, path), "https://foo.org/", "script") {
+                            d.str(&NetAns::of(&e.check_network_request(&rq)).show());
+                        }
+                    }
+                }
+            }
+        }
+    }
     for (pi, p) in w.pages.iter().enumerate() {
         if light && pi >= 1 {
             break;
@@ -718,6 +737,7 @@ pub fn run_case(t: &mut Target, kind: &str, bytes: &[u8], pristine: bool, st: &m
         }
         Ok(()) => {
             st.load_ok += 1;
+            *st.per_kind.entry(format!("{}_loaded_ok", kind)).or_insert(0) += 1;
             if !pristine {
                 st.load_ok_on_damaged += 1;
             }
